@@ -406,6 +406,23 @@ def rule_fallback(fx, rep):
             allowed = {"PrincipalVariation::push": {neg.name}, "PrincipalVariation::clear": {neg.name},
                        "PrincipalVariation::append": {fx.one("search::get_tablebase_pv").name}}[meth]
             good = b.name in allowed
+            if not good:
+                # a private helper split off an allowed writer: every caller (transitively, up to three levels) is allowed
+                frontier, seen_h = {b.name}, set()
+                for _ in range(3):
+                    cs = set()
+                    for h in frontier:
+                        hc = fx.callers_of(lambda nm, h=h: fx.body(nm) is not None and fx.body(nm).name == h)
+                        if not hc:
+                            cs.add(None)
+                        cs |= {cb.name for (cb, _b2, _t2) in hc}
+                    seen_h |= frontier
+                    frontier = {c for c in cs if c is not None and c not in allowed and c not in seen_h}
+                    if None in cs:
+                        break
+                    if not frontier:
+                        good = True
+                        break
             rep.obligation(good)
             if not good:
                 ok = False
